@@ -695,7 +695,7 @@ def history_instances(quick):
            # stabiliser engine at Clifford points: 6 and 8 qubits (H4-sized)
            # 6 qubits, ring engine (rotations of pi/4 per word: a mis-assigned angle inside one excitation shows; at
            # Clifford points it often does not - measured with the UpCCGSD layer-offset mutant)
-           ("UpCCGSD", 3, 2, False, 2, "ring", 2 if q else 5), ("UCCSD", 3, 2, False, 1, "ring", 1 if q else 3),
+           ("UpCCGSD", 3, 2, False, 2, "ring", 1 if q else 5), ("UCCSD", 3, 2, False, 1, "ring", 1 if q else 3),
            ("UCCSD", 3, 2, False, 1, "cliff", 0 if q else 6), ("UpCCGSD", 3, 2, False, 2, "cliff", 0 if q else 8),
            ("UCCSD", 4, 4, False, 1, "cliff", 1 if q else 10), ("UpCCGSD", 4, 4, False, 2, "cliff", 2 if q else 14),
            ("pUCCD", 4, 4, False, 1, "cliff", 1 if q else 6)]
@@ -914,24 +914,48 @@ def tlc_commute(a, b):
 
 
 def judge_jobs(chk, jobs, name, account=True):
+    """the two carriers (R_8 records incl. the stabiliser jobs, R_16 ring-engine circuits) are judged CONCURRENTLY: the wall
+    time of the ring stage is bounded by its longest single circuit (a 900-gate 6-qubit history), the other stage fills
+    the remaining cores."""
+    import concurrent.futures as cf
     by_m = {}
     for j in jobs:
         by_m.setdefault(j.get("M", M), []).append(j)
+    share = {m: JVMS for m in by_m}
+    if len(by_m) == 2:
+        share = {M: max(2, JVMS // 3), MC: max(2, JVMS - JVMS // 3)}
+
+    def stage(m):
+        # longest-processing-time-first packing into one chunk per JVM; exact evaluation of a deep circuit costs much more
+        # than linear in its length (the ring integers grow), so a 700-gate 6-qubit circuit gets a JVM of its own
+        def cost(j):
+            g = len(j.get("gates", ()))
+            return len(str(j)) + (g * g * 2 ** j.get("nq", 0) if j["k"] == "circ" else 0)
+        js = sorted(by_m[m], key=lambda j: -cost(j))
+        nch = max(1, min(len(js), 3 * share[m] if m == M else share[m]))
+        chunks, load = [[] for _ in range(nch)], [0] * nch
+        for j in js:
+            a = load.index(min(load))
+            chunks[a].append(j)
+            load[a] += cost(j)
+        verdicts, results = {}, []
+        runs = [ex2 for ex2 in chunks if ex2]
+        import concurrent.futures as cf2
+        with cf2.ThreadPoolExecutor(max_workers=share[m]) as pool:
+            futs = [pool.submit(tlc.judge, "C12Trace", ch, "%s%d_%02d" % (name, m, a), {"M": m}, len(ch), 1, 7200)
+                    for a, ch in enumerate(runs)]
+            for f in futs:
+                v, r = f.result()
+                verdicts.update(v)
+                results += r
+        return verdicts, results
     verdicts = {}
-    for m, js in by_m.items():
-        # heavy jobs first, dealt round-robin so that the chunks (one JVM each) are balanced
-        js = sorted(js, key=lambda j: -len(str(j)))
-        nch = max(1, min(len(js), 3 * JVMS if m == M else JVMS))
-        chunks = [js[a::nch] for a in range(nch)]
-        size = max(len(ch) for ch in chunks)
-        flat = []
-        for ch in chunks:
-            flat += ch
-        v, results = tlc.judge("C12Trace", flat, "%s%d" % (name, m), {"M": m}, chunk=size, max_parallel=JVMS, timeout=7200)
-        verdicts.update(v)
-        if account:
-            for r in results:
-                chk.add_tlc(r)
+    with cf.ThreadPoolExecutor(max_workers=2) as ex:
+        for v, results in ex.map(stage, sorted(by_m)):
+            verdicts.update(v)
+            if account:
+                for r in results:
+                    chk.add_tlc(r)
     return verdicts
 
 
